@@ -347,7 +347,13 @@ static void run_cmd(int ntok, char **tok) {
     }
     else if(!strcmp(op, "chunk_data") || !strcmp(op, "chunk_comp_data")) {
         int c = C(1); long k = (long)AI(2); long long n = AI(3);
-        zckChunk *ch = nth_chunk(ctxs[c], k);
+        /* the handle comes from the public lookups, alternately by number and by iteration (a consumer does not cache it) */
+        static __thread unsigned lookups;
+        zckChunk *ch = NULL;
+        if(ctxs[c] && ctxs[c]->index.first && k >= 0) {
+            if(lookups++ % 2 == 0) ch = zck_get_chunk(ctxs[c], (size_t)k);
+            else { ch = zck_get_first_chunk(ctxs[c]); for(long i_ = 0; ch && i_ < k; i_++) ch = zck_get_next_chunk(ch); }
+        }
         if(n < 0 && ch) n = !strcmp(op, "chunk_data") ? (long long)ch->length : (long long)ch->comp_length;
         if(n < 0) n = 0;
         if(n > (1LL << 27)) n = 1LL << 27;     /* the buffer the caller is willing to supply */
